@@ -6,7 +6,6 @@ import (
 	"log/slog"
 	"regexp"
 	"slices"
-	"sort"
 	"strings"
 
 	"github.com/prometheus/common/model"
@@ -329,10 +328,11 @@ func matchEntries(before, after []Entry) (ml []matchedEntry) {
 }
 
 func isEntryIdentical(b, a Entry) bool {
-	if !slices.Equal(sort.StringSlice(b.DisabledChecks), sort.StringSlice(a.DisabledChecks)) {
+	bd, ad := slices.Sorted(slices.Values(b.DisabledChecks)), slices.Sorted(slices.Values(a.DisabledChecks))
+	if !slices.Equal(bd, ad) {
 		slog.Debug("List of disabled checks was modified",
-			slog.Any("before", sort.StringSlice(b.DisabledChecks)),
-			slog.Any("after", sort.StringSlice(a.DisabledChecks)))
+			slog.Any("before", bd),
+			slog.Any("after", ad))
 		return false
 	}
 	return true
